@@ -51,6 +51,20 @@ func Make(shape string, n int, seed int64) []byte {
 		}
 		return b
 	}
+	if strings.HasPrefix(shape, "litrun:") {
+		// a literal run of (about) k incompressible bytes, then periodic text that the LZ family codes as matches: the
+		// multi-byte forms of the literal-length fields at their exact boundaries
+		k := 0
+		fmt.Sscanf(shape[7:], "%d", &k)
+		k = max(0, min(k, n))
+		b = make([]byte, k)
+		r.Fill(b)
+		pat := []byte("the quick brown fox jumps over the lazy dog; ")
+		for len(b) < n {
+			b = append(b, pat...)
+		}
+		return b[:n]
+	}
 	if strings.HasPrefix(shape, "alpha:") {
 		// exactly k distinct symbols (when n >= k), mildly skewed: boundary cases of the alphabet / frequency headers
 		k := 1
